@@ -45,6 +45,8 @@ for o in "${outs[@]}"; do
       if [ -n "$g" ]; then t=0; while [ ! -e "$ctl/$g" ]; do sleep 0.01; t=$((t+1)); [ $t -gt 3000 ] && { log T; exit 7; }; done; fi
       [ "$fault" = exit_after_partial ] && exit 3
       [ "$fault" = sigkill_self ] && kill -9 $$
+      [ "$fault" = sigterm_self ] && kill -TERM $$      # the task's shell then reports exit status 143
+      [ "$fault" = sigint_self ] && kill -INT $$        # ... 130
       if [ "$fault" = sigkill_shell ]; then kill -9 $PPID; exit 3; fi   # the bash -c process itself dies by a signal
     fi
     pad=$(ctlval pad); if [ -n "$pad" ] && [ "$pad" -gt 0 ]; then head -c "$pad" /dev/zero | tr '\0' 'x'; echo; fi
